@@ -220,13 +220,36 @@ def check_severity(ctx, out):
     if sev is None:
         out.viol("C11.sev", "C11.sev|accessor", "-", "Block::severity not found")
     else:
-        e = ctx.expr(sev).local(0)
-        txt = render(e, 600)
-        dflt = [x for x in walk(e) if x[0] == "agg" and x[1].startswith("blockwatch::blocks::BlockSeverity::")]
-        if dflt and all(x[1].endswith("::Error") for x in dflt) and "'severity'" in txt:
+        # on the path where attributes.get("severity") is None the result is Ok(Error); no other level
+        # is ever produced here (normalised view: `map_or`, `match`, `if let` read alike)
+        sv = ctx.inl(sev, skip=ctx.domain_api, tag="domain", sugar=True)
+        levels = sorted({s["rv"].get("variant") for bi, j, s in sv.assigns() if s["rv"]["k"] == "agg" and s["rv"].get("path") == adt["path"]})
+        Es = ctx.expr(sv)
+        none_ok = 0
+        bad = []
+        slots = util.return_slots(sv)
+        for bi, j, s in sv.assigns():
+            if s["lhs"]["l"] not in slots or s["lhs"]["p"] or bi not in cfg_of(sv).reachable:
+                continue
+            if s["lhs"]["l"] != 0 and s["rv"]["k"] == "use" and util.op_place(s["rv"]["op"]) and util.op_place(s["rv"]["op"])["l"] in slots:
+                continue
+            arm = None
+            for br, vals, e in util.guards(ctx, sv, bi):
+                txt = render(e, 400)
+                if e[0] == "discr" and re.search(r"HashMap::get\(", txt) and "'severity'" in txt:
+                    arm = "none" if vals == {0} else "some"
+            ev = Es.rvalue(s["rv"])
+            is_default = ev[0] == "agg" and ev[1].endswith("Result::Ok") and ev[2] and ev[2][0][0] == "agg" and ev[2][0][1] == adt["path"] + "::Error"
+            if arm == "none" and is_default:
+                none_ok += 1
+            elif arm == "some" and not is_default:
+                pass
+            elif s["lhs"]["l"] == 0 or arm is not None:
+                bad.append((arm, render(ev, 80)))
+        if none_ok and not bad and levels == ["Error"]:
             n += 1
         else:
-            out.viol("C11.sev", "C11.sev|default", ctx.where(sev), "a block without a severity attribute does not default to Error (%s)" % txt[:160])
+            out.viol("C11.sev", "C11.sev|default", ctx.where(sev), "a block without a severity attribute does not default to Error (levels built in the accessor: %s; results: %s)" % (levels, bad[:3]))
         region = ctx.facts.with_descendants(sev)
         if any(callee_matches(t, r"BlockSeverity as std::str::FromStr>::from_str$") for rb in region for bi, t in rb.calls()):
             n += 1
@@ -248,7 +271,11 @@ def check_all(ctx, out):
                 continue
             # same block as the one whose start tag gives the range
             rng = ctx.prov.read_operand(b, t["args"][0])
-            sev_params = {l[1] for l in sev if l[0] == "param"}
+            # which block is asked for its severity: the receiver of the Block::severity call(s)
+            sev_params = set()
+            for bj, tj in b.calls():
+                if callee_matches(tj, r"blocks::Block::severity$") and tj["args"]:
+                    sev_params |= {l[1] for l in ctx.prov.read_operand(b, tj["args"][0]) if l[0] == "param"}
             rng_params = {l[1] for l in rng if l[0] == "param" and "start_tag_position_range" in l[2]}
             line_level = name in ("keep-sorted", "keep-unique", "line-pattern")
             if line_level or (sev_params & rng_params) or (not sev_params and not rng_params):
